@@ -18,7 +18,7 @@ CHECKS = {
             {"run": "^TestC01SingleBuild$", "n": {"quick": 10000, "thorough": 60000}},
             {"run": "^TestC01Sweep$", "n": {"quick": 1, "thorough": 1}, "env_tier": {"quick": {"VERIF_SWEEP_LIMIT": 30}, "thorough": {}},
              "shards": {"quick": 1, "thorough": 16}},
-            {"run": "^TestC01Stress$", "race": True, "n": {"quick": 150, "thorough": 1500}, "shards": {"quick": 1, "thorough": 8}},
+            {"run": "^TestC01Stress$", "race": True, "n": {"quick": 150, "thorough": 400}, "shards": {"quick": 1, "thorough": 8}},
         ],
     },
     "C02": {
@@ -121,6 +121,7 @@ CHECKS = {
                         "janitor never fires (interval 10^6 h)"],
         "jobs": [
             {"run": "^TestC07BackendModel$", "n": {"quick": 20000, "thorough": 150000}},
+            {"run": "^TestC07AbortedWalk$", "n": {"quick": 4000, "thorough": 40000}},
             {"fuzz": "^FuzzC07BackendModel$", "fuzztime": {"thorough": "60s"}, "tiers": ("thorough",), "timeout": {"quick": 300, "thorough": 600}},
         ],
     },
@@ -187,6 +188,7 @@ CHECKS = {
         "assumptions": ["no eviction limit configured", "expiry arises through TTLs only"],
         "jobs": [
             {"run": "^TestC11Janitor$", "n": {"quick": 10000, "thorough": 100000}},
+            {"run": "^TestC11FailoverOwnedBackend$", "n": {"quick": 3000, "thorough": 30000}},
         ],
     },
     "C12": {
